@@ -8,7 +8,7 @@ use crate::util::*;
 use arrow_arith::{aggregate, boolean, numeric};
 use arrow_array::cast::AsArray;
 use arrow_array::types::*;
-use arrow_array::{Array, ArrayRef, ArrowNumericType, ArrowPrimitiveType, BooleanArray, Datum, PrimitiveArray, Scalar};
+use arrow_array::{Array, ArrayRef, ArrowNumericType, ArrowPrimitiveType, BooleanArray, Datum, PrimitiveArray, RunArray, Scalar};
 use arrow_buffer::{i256, BooleanBuffer, NullBuffer, ScalarBuffer};
 use arrow_schema::{ArrowError, DataType};
 use num_bigint::{BigInt, Sign};
@@ -266,6 +266,43 @@ fn run_temporal(a: &Args) -> Args {
     }
 }
 
+/// aggregates over a sliced run-end-encoded array.
+/// header: [signed; bits; aggop; hasnulls (values child); run-end bits; slice off; slice len; values child offset; run-ends child offset]
+/// groups: [run ends] [values] [validity of the values]; aggop 0 sum_array 1 sum_array_checked 2 min_array 3 max_array
+fn run_reeagg<R: RunEndIndexType, T: ArrowNumericType>(a: &Args) -> Args
+where R::Native: Nat, T::Native: Nat {
+    let re = build::<R>(&a[1], None, h(a, 8) as usize);
+    let vals = build::<T>(&a[2], hb(a, 3).then_some(&a[3]), h(a, 7) as usize);
+    let ra = RunArray::<R>::try_new(&re, &vals).expect("valid run array");
+    let sl = ra.slice(h(a, 5) as usize, h(a, 6) as usize);
+    let t = sl.downcast::<PrimitiveArray<T>>().expect("typed run array");
+    let o = |r: Option<T::Native>| vec![r.map(|z| vec![z.to_big()]).unwrap_or_default()];
+    match h(a, 2) {
+        0 => o(aggregate::sum_array::<T, _>(t)),
+        1 => match aggregate::sum_array_checked::<T, _>(t) { Ok(r) => o(r), Err(e) => err(err_kind(&e)) },
+        2 => o(aggregate::min_array::<T, _>(t)),
+        _ => o(aggregate::max_array::<T, _>(t)),
+    }
+}
+macro_rules! ree_dispatch {
+    ($rebits:expr, $signed:expr, $bits:expr, $a:expr) => {
+        match $rebits {
+            16 => ree_dispatch!(@v Int16Type, $signed, $bits, $a),
+            32 => ree_dispatch!(@v Int32Type, $signed, $bits, $a),
+            64 => ree_dispatch!(@v Int64Type, $signed, $bits, $a),
+            _ => panic!("run-end type"),
+        }
+    };
+    (@v $r:ty, $signed:expr, $bits:expr, $a:expr) => {
+        match ($signed, $bits) {
+            (true, 8) => run_reeagg::<$r, Int8Type>($a), (true, 32) => run_reeagg::<$r, Int32Type>($a),
+            (true, 64) => run_reeagg::<$r, Int64Type>($a), (false, 64) => run_reeagg::<$r, UInt64Type>($a),
+            (true, 128) => run_reeagg::<$r, Decimal128Type>($a),
+            _ => panic!("run value type"),
+        }
+    };
+}
+
 pub fn run(op: &str, a: &Args) -> Option<Args> {
     Some(match op {
         "c12.arith" => int_dispatch!(hb(a, 0), h(a, 1), run_arith, a),
@@ -276,6 +313,7 @@ pub fn run(op: &str, a: &Args) -> Option<Args> {
         "c12.bool" => run_bool(a),
         "c12.agg" => agg_dispatch!(hb(a, 0), h(a, 1), run_agg, a),
         "c12.boolagg" => run_boolagg(a),
+        "c12.reeagg" => ree_dispatch!(h(a, 4), hb(a, 0), h(a, 1), a),
         _ => return None,
     })
 }
@@ -732,6 +770,95 @@ fn gen_decimal(tier: &str, r: &mut Rng, emit: &mut dyn FnMut(Case)) {
     }
 }
 
+// ---- aggregates over run-end-encoded arrays (F22: sum of a SLICED run array)
+/// generator-side oracle for sum_array_checked: does the run-wise fold of the source (value * run length,
+/// run length converted to the value type) report overflow where the left-to-right sum of the logical rows
+/// (the column specification) does not?
+fn ree_checked_spurious(signed: bool, bits: u32, runs: &[(Option<BigInt>, usize)]) -> bool {
+    let mut acc = BigInt::zero();
+    for (v, n) in runs {
+        let Some(v) = v else { continue };
+        let total = &acc + v * BigInt::from(*n);
+        if !in_range(signed, bits, &total) { return false; } // both report overflow here (partial sums are monotone within a run)
+        if !in_range(signed, bits, &BigInt::from(*n)) || !in_range(signed, bits, &(v * BigInt::from(*n))) { return true; }
+        acc = total;
+    }
+    false
+}
+
+fn gen_reeagg(tier: &str, r: &mut Rng, emit: &mut dyn FnMut(Case)) {
+    let thorough = tier == "thorough";
+    let vtypes: [(bool, u32); 5] = [(true, 8), (true, 32), (true, 64), (false, 64), (true, 128)];
+    for rebits in [16u32, 32, 64] {
+        for (signed, bits) in vtypes {
+            let bnd = boundary(signed, bits);
+            for base in 0..(if thorough { 12 } else { 3 }) {
+                // run structure
+                let nruns = match r.below(6) { 0 => 1, 1 => 2, _ => 2 + r.below(7) };
+                let mut ends: Vec<usize> = Vec::new();
+                let mut e = 0usize;
+                for _ in 0..nruns {
+                    e += match r.below(10) { 0..=3 => 1, 4..=7 => 2 + r.below(6), 8 => 60 + r.below(10), _ => 126 + r.below(80) };
+                    ends.push(e);
+                }
+                let total = e;
+                let vm = (base + r.below(2)) % 5; // 0 small, 1 boundary-dense, 2 small with extremes, 3 cancelling extremes, 4 distinct small (F22 shape)
+                let vals: Vec<BigInt> = (0..nruns).map(|i| match vm {
+                    0 => BigInt::from(r.range(if signed { -3 } else { 0 }, 3)),
+                    1 => rand_val(r, signed, bits, &bnd),
+                    2 => if r.chance(1, 4) { if r.bool() { tmax(signed, bits) } else { tmin(signed, bits) } } else { BigInt::from(r.range(0, 2)) },
+                    3 => if i % 2 == 0 { tmax(signed, bits) / BigInt::from(1 + r.below(4)) } else if signed { -(tmax(signed, bits) / BigInt::from(1 + r.below(4))) } else { BigInt::from(r.below(2)) },
+                    _ => BigInt::from(10 * (i + 1)).min(tmax(signed, bits)),
+                }).collect();
+                let nm = r.below(5); // 0,1 no null buffer; 2 all valid buffer; 3 some null runs; 4 all null runs
+                let valid: Vec<bool> = (0..nruns).map(|_| match nm { 3 => !r.chance(1, 3), 4 => false, _ => true }).collect();
+                let hn = nm >= 2;
+                // slices: whole, offsets inside the first run / on run boundaries, within one run, cutting trailing runs,
+                // empty (offset 0 and > 0), single rows, random
+                let mut sl: Vec<(usize, usize, &str)> = vec![(0, total, "whole"), (0, 0, "empty0"), (total, 0, "emptyend"), (0, 1, "row"), (total - 1, 1, "row")];
+                if ends[0] > 1 { sl.push((1, total - 1, "in1st")); sl.push((ends[0] - 1, total - ends[0] + 1, "in1st")); sl.push((1, 0, "emptyin")); }
+                for k in 0..nruns {
+                    let (st, en) = (if k == 0 { 0 } else { ends[k - 1] }, ends[k]);
+                    if k + 1 < nruns && (k < 2 || r.chance(1, 3)) {
+                        sl.push((en, total - en, "bound")); sl.push((en, 0, "emptyb")); sl.push((0, en, "cutb"));
+                        sl.push((en - 1, 1, "row")); sl.push((en, 1, "row")); sl.push((en - 1, 2, "cross"));
+                        if en + 1 <= total { sl.push((0, en + 1, "cutin")); }
+                        if en - st > 1 { sl.push((0, en - 1, "cutin")); }
+                    }
+                    if en - st >= 2 && (k < 2 || r.chance(1, 3)) {
+                        let a0 = r.below(en - st - 1); let b0 = 1 + r.below(en - st - a0 - 1).max(0);
+                        sl.push((st + a0, b0.min(en - st - a0), "inrun")); sl.push((st, en - st, "onerun")); sl.push((st + 1, en - st - 1, "inrun"));
+                    }
+                }
+                for _ in 0..4 { let o = r.below(total + 1); let l = r.below(total - o + 1); sl.push((o, l, "rand")); }
+                sl.retain(|(o, l, _)| o + l <= total);
+                sl.sort(); sl.dedup_by(|a, b| a.0 == b.0 && a.1 == b.1);
+                let (voff, reoff) = (if r.bool() { 0 } else { r.below(9) }, if r.bool() { 0 } else { r.below(5) });
+                for (off, len, class) in sl {
+                    // runs of the slice with their clamped lengths (generator-side, only to classify sum_checked cases)
+                    let mut runs: Vec<(Option<BigInt>, usize)> = Vec::new();
+                    let mut prev = 0usize;
+                    for k in 0..nruns {
+                        let lo = prev.max(off); let hi = ends[k].min(off + len);
+                        if hi > lo { runs.push(((!hn || valid[k]).then(|| vals[k].clone()), hi - lo)); }
+                        prev = ends[k];
+                    }
+                    for aggop in 0..4i64 {
+                        // KNOWN-FINDING candidate: sum_array_checked on a run array multiplies value by run length (and converts the
+                        // run length to the value type) and reports overflow of that intermediate although the left-to-right checked
+                        // sum of the logical rows (sum_checked of the equivalent plain array) succeeds, e.g. Int8 runs [-100 x1, 100 x2]
+                        // or a run of 200 zeros.  Not compared.
+                        if aggop == 1 && ree_checked_spurious(signed, bits, &runs) { continue; }
+                        let hdr: Group = vec![(signed as i64).into(), bits.into(), aggop.into(), (hn as i64).into(), rebits.into(), off.into(), len.into(), voff.into(), reoff.into()];
+                        emit(Case::new("c12.reeagg", vec![hdr, gs(&ends.iter().map(|x| *x as u64).collect::<Vec<_>>()), vals.clone(), if hn { gbools(valid.iter().copied()) } else { vec![] }],
+                            &["c12.reeagg.spec"], format!("ree r{} {}{} op{} {} nm{} vm{}", rebits, if signed { 'i' } else { 'u' }, bits, aggop, class, nm, vm)));
+                    }
+                }
+            }
+        }
+    }
+}
+
 pub fn generate(tier: &str, r: &mut Rng, emit: &mut dyn FnMut(Case)) {
     let thorough = tier == "thorough";
     // --- integer kernels
@@ -811,5 +938,6 @@ pub fn generate(tier: &str, r: &mut Rng, emit: &mut dyn FnMut(Case)) {
     gen_i256(tier, r, emit);
     gen_bool(tier, r, emit);
     gen_agg(tier, r, emit);
+    gen_reeagg(tier, r, emit);
     gen_decimal(tier, r, emit);
 }
